@@ -258,3 +258,14 @@ func EnvDur(name string, def time.Duration) time.Duration {
 	}
 	return def
 }
+
+// Violations returns the first violation per signature (used by shard processes).
+func (c *Collector) Violations() []Violation {
+	c.mu.Lock()
+	defer c.mu.Unlock()
+	var out []Violation
+	for _, v := range c.bySig {
+		out = append(out, *v)
+	}
+	return out
+}
